@@ -1,6 +1,7 @@
 """C20: program generator, the interpreter that runs option programs on the real pfst API (one thread, or several real
 threads stepped in lock-step), and the catalogue of option-sensitive tree edits."""
 
+import json
 import random
 import re
 import sys
@@ -53,66 +54,181 @@ def _exc(e):
     return 'EXC ' + type(e).__name__ + ': ' + _re_addr.sub('0x', str(e))[:100]
 
 
-def _e_copy_par(F, o, st):
+def _e_copy_par(F, o, st, chk):
     return F('[(a), b]').elts[0].copy(**o).src
 
 
-def _e_replace_binop(F, o, st):
+def _e_replace_binop(F, o, st, chk):
     f = F('a * b')
     f.left.replace('c + d', **o)
     return f.src
 
 
-def _e_replace_par(F, o, st):
+def _e_replace_par(F, o, st, chk):
     f = F('[a, b]')
     f.elts[0].replace('(c)', **o)
     return f.src
 
 
-def _e_walrus(F, o, st):
+def _e_walrus(F, o, st, chk):
     return F('[a := 1, b]').elts[0].copy(**o).src
 
 
-def _e_arglike(F, o, st):
+def _e_arglike(F, o, st, chk):
     return F('f(*not a, b)').args[0].copy(**o).src
 
 
-def _e_cut_stmt(F, o, st):
+def _e_cut_stmt(F, o, st, chk):
     f = F('a\n\n# c1\n\n# c2\nb # line\n# post\n\nc\n')
     s = f.body[1].cut(**o)
     return s.src + '\x00' + f.src
 
 
-def _e_set_del(F, o, st):
+def _e_set_del(F, o, st, chk):
     f = F('{a, b}')
     f.put_slice(None, 0, 2, **o)
     return f.src
 
 
-def _e_set_get(F, o, st):
+def _e_set_get(F, o, st, chk):
     f = F('{a, b}')
     g = f.get_slice(0, 2, cut=True, **o)
     return g.src + '\x00' + f.src + '\x00' + F('{a, b}').get_slice(0, 0, **o).src
 
 
-def _e_pep8(F, o, st):
+def _e_pep8(F, o, st, chk):
     f = F('x = 1\ny = 2\n')
     f.body.append('def f(): pass', **o)
     return f.src
 
 
-def _e_elif(F, o, st):
+def _e_elif(F, o, st, chk):
     f = F('if a:\n  b\nelse:\n  c\n')
     f.orelse[0].replace('if d: e', **o)
     return f.src
 
 
-def _e_docstr(F, o, st):
+def _e_docstr(F, o, st, chk):
     f = F('def f():\n    """doc\n    string"""\n    """not\n    doc"""\n')
     return f.body[1].copy(**o).src + '\x00' + f.body[0].copy(**o).src
 
 
-def _e_persist(F, o, st):
+class Chk:
+    """hooks the edits call after every pfst API call (registry residue) and for follow-up-vs-alone comparisons"""
+
+    def __init__(self, sink=None, registry=False):
+        self.sink = sink
+        self.registry = registry
+
+    def api(self, what=''):
+        if self.registry and self.sink is not None and registry_size():
+            if ['registry|not-empty-after-call', what] not in self.sink:
+                self.sink.append(['registry|not-empty-after-call', what])      # not cleared here: the follow-up edit
+                                                                               # must show what the residue does
+
+    def same(self, what, got, ref):
+        if self.sink is not None and got != ref:
+            self.sink.append(['edit|follow-up-differs-from-alone', what, got[:120], ref[:120]])
+
+
+NOCHK = Chk()
+
+
+def copy_opts(o):
+    """per-call options with every mutable value (list) copied"""
+    return {k: (list(v) if isinstance(v, list) else v) for k, v in o.items()}
+
+
+# -- edits that consume the `op` / `op_side` options (Compare slices need an extra operator) -------------------------
+
+def _e_cmp_ins(F, o, st, chk):
+    f = F('a == b')
+    f.put_slice('x', 1, 1, **o)
+    chk.api('put_slice')
+    return f.src
+
+
+def _e_cmp_ins_first(F, o, st, chk):
+    f = F('a == b < c')
+    f.put_slice('x', 0, 0, **o)
+    chk.api('put_slice')
+    return f.src
+
+
+def _e_cmp_repl(F, o, st, chk):
+    f = F('a == b < c')
+    f.put_slice('x', 1, 2, **o)
+    chk.api('put_slice')
+    return f.src
+
+
+def _e_cmp_ins3(F, o, st, chk):
+    """the identical insertion three times, on three fresh trees, with the very same option objects"""
+    out = []
+    for _ in range(3):
+        f = F('a == b')
+        try:
+            f.put_slice('x', 1, 1, **o)
+            out.append(f.src)
+        except Exception as e:
+            out.append(_exc(e))
+        chk.api('put_slice')
+    chk.same('identical edit repeated with the same option objects', out[1] + '|' + out[2], out[0] + '|' + out[0])
+    return '\x00'.join(out)
+
+
+# -- par() / unpar() followed by an unrelated edit of another node of the same tree ---------------------------------
+
+def _follow(F, f, target, new, o, chk, what):
+    mid = f.src
+
+    def edit(tree):
+        try:
+            target(tree).replace(new, **copy_opts(o))
+            return tree.src
+        except Exception as e:
+            return _exc(e)
+    got = edit(f)
+    chk.api(what + ' + replace')
+    ref = edit(F(mid))            # the same edit with no history: on a tree built from the intermediate source
+    chk.api('replace')
+    chk.same(what + ' then an unrelated edit of the same tree', got, ref)
+    return mid + '\x00' + got
+
+
+def _mk_unpar(name, src, node_of, target, kw, pre=()):
+    def edit(F, o, st, chk):
+        f = F(src)
+        n = node_of(f)
+        for meth, mkw in pre:
+            getattr(n, meth)(**mkw)
+            chk.api(meth)
+        n.unpar(**kw)
+        chk.api(f'unpar({kw})')
+        return _follow(F, f, target, 'y', o, chk, f'{name}: unpar({kw}) on {src!r}')
+    edit.__name__ = '_e_' + name
+    return edit
+
+
+_asg_val = lambda f: f.a.value.f
+_asg_tgt = lambda f: f.a.targets[0].f
+_mat_pat = lambda f: f.a.cases[0].pattern.f
+_mat_sub = lambda f: f.a.subject.f
+_UNPAR = [
+    _mk_unpar('unpar_tuple_node', 'x = ((a, b))', _asg_val, _asg_tgt, {'node': True}),
+    _mk_unpar('unpar_tuple_invalid', 'x = (((a, b)))', _asg_val, _asg_tgt, {'node': 'invalid'}),
+    _mk_unpar('unpar_tuple_grouping', 'x = ((a, b))', _asg_val, _asg_tgt, {}),
+    _mk_unpar('unpar_tuple_unshared', 'x = ((a, b))', _asg_val, _asg_tgt, {'node': True, 'shared': False}),
+    _mk_unpar('unpar_list_invalid', 'x = ([a, b])', _asg_val, _asg_tgt, {'node': 'invalid'}),
+    _mk_unpar('unpar_matchseq_brackets', 'match x:\n  case ([a, b]): pass', _mat_pat, _mat_sub, {'node': True}),
+    _mk_unpar('unpar_matchseq_parens', 'match x:\n  case ((a, b)): pass', _mat_pat, _mat_sub, {'node': 'invalid'}),
+    _mk_unpar('par_unpar_tuple', 'x = a, b', _asg_val, _asg_tgt, {'node': True}, pre=(('par', {}), ('par', {'force': True}))),
+    _mk_unpar('par_unpar_name', 'x = a', _asg_val, _asg_tgt, {'node': True}, pre=(('par', {}), ('par', {'force': True}))),
+]
+CMP_EDITS = [_e_cmp_ins, _e_cmp_ins_first, _e_cmp_repl, _e_cmp_ins3]
+
+
+def _e_persist(F, o, st, chk):
     """cumulative edit of the thread's own long-lived tree"""
     t = st['tree']
     k = st['k'] = st['k'] + 1
@@ -123,7 +239,8 @@ def _e_persist(F, o, st):
 
 
 EDITS = [_e_copy_par, _e_replace_binop, _e_replace_par, _e_walrus, _e_arglike, _e_cut_stmt, _e_set_del, _e_set_get,
-         _e_pep8, _e_elif, _e_docstr, _e_persist]
+         _e_pep8, _e_elif, _e_docstr, *CMP_EDITS, *_UNPAR, _e_persist]
+CMP_IDS = [EDITS.index(e) for e in CMP_EDITS]
 EDIT_NAMES = [f.__name__[3:] for f in EDITS]
 PERSIST = EDITS.index(_e_persist)
 N_FRESH = PERSIST            # edits [0, N_FRESH) build a fresh tree per call: their result is a function of the options
@@ -133,11 +250,19 @@ def new_state():
     return {'tree': dom().FST('[a]'), 'k': 0}
 
 
-def run_edit(eid, opts, st):
+def run_edit(eid, opts, st, chk=NOCHK):
     try:
-        return EDITS[eid](dom().FST, opts, st)
+        return EDITS[eid](dom().FST, opts, st, chk)
     except Exception as e:
         return _exc(e)
+
+
+def registry_clear():
+    try:
+        from fst import fst_core
+        fst_core._MODIFYING.clear()
+    except Exception:
+        pass
 
 
 def registry_size():
@@ -166,6 +291,23 @@ class Gen:
         self.to = d.name_code.get('to')
         self.plain_vals = [i for i, v in enumerate(d.values) if c20_domain._is_plain(v)]
         self.call_edits = call_edits if call_edits is not None else list(range(len(EDITS)))
+        self.n_op, self.n_op_side = d.name_code.get('op'), d.name_code.get('op_side')
+        self.op_lists = [v for v in d.mutable_codes() if d.values[v]]
+        self.sides = self.accG.get(self.n_op_side, [])
+
+    def with_op(self, kvs, p_op, p_side):
+        """make a keyword mapping use the `op` option as a list of source lines (a mutable object) / an `op_side`"""
+        r = self.rng
+        if self.n_op is None or not self.op_lists:
+            return kvs
+        kvs = [kv for kv in kvs]
+        if r.random() < p_op:
+            kvs = [kv for kv in kvs if kv[0] != self.n_op]
+            kvs.insert(r.randrange(len(kvs) + 1), [self.n_op, r.choice(self.op_lists)])
+        if self.sides and r.random() < p_side:
+            kvs = [kv for kv in kvs if kv[0] != self.n_op_side]
+            kvs.insert(r.randrange(len(kvs) + 1), [self.n_op_side, r.choice(self.sides)])
+        return kvs
 
     def kvs(self, kind, p_bad=0.14):
         """kind: 'set' (global table), 'call' (all table), 'get' (no validation: anything)"""
@@ -200,11 +342,23 @@ class Gen:
                 out.append(['get', r.choice(self.glob + self.other) if r.random() < 0.3 else r.choice(self.glob),
                             self.kvs('get')])
             elif c < 0.40:
-                out.append(['call', self.kvs('call'), r.choice(self.call_edits)])
+                eid = r.choice(self.call_edits)
+                kv = self.kvs('call')
+                if eid in CMP_IDS:
+                    kv = self.with_op(kv, 0.5, 0.5)
+                out.append(['call', kv, eid])
             elif c < 0.60:
                 out.append(['set', self.kvs('set')])
             elif c < 0.82 and depth > 0:
-                out.append(['block', self.kvs('set', 0.08), self.stmts(depth - 1)])
+                kv = self.kvs('set', 0.08)
+                body = self.stmts(depth - 1)
+                if r.random() < 0.2:
+                    kv = self.with_op(kv, 0.9, 0.6)
+                    cmp_ = [e for e in CMP_IDS if e in self.call_edits]
+                    if cmp_:
+                        e = r.choice(cmp_)
+                        body = [['call', [], e]] * r.choice([1, 2, 3]) + body     # identical edits inside the block
+                out.append(['block', kv, body])
             elif c < 0.90:
                 out.append(['raise'])
             elif depth > 0:
@@ -264,6 +418,19 @@ class Runner:
         self.exc = False
         self.last = None        # get_options() at the end of this thread's previous step
         self.registry = True    # check that `_MODIFYING` is empty after a call (only meaningful in lock-step / alone)
+        self.shared = {}        # value code -> THE mutable option object this program owns for it (reused by all steps)
+        self.same = {}          # (edit, per-call codes, defaults before) -> text: an edit is a function of these
+
+    def dec(self, kvs):
+        return self.d.dec_kvs(kvs, self.shared)
+
+    def check_objects(self, what, kvs):
+        """(a) of the per-call clause at the object level: no option object the program owns was changed (compared by
+        value with the probe domain's pristine value, never with itself)"""
+        for code, obj in self.shared.items():
+            if obj != self.d.values[code] or repr(obj) != repr(self.d.values[code]):
+                self.anomalies.append(['call|option-object-mutated', what, kvs, repr(self.d.values[code]), repr(obj)])
+                self.shared[code] = list(self.d.values[code])       # keep going with a clean object
 
     # -- direct evaluation of the property while running (no model involved); reported through `anomalies` --------
     def turn(self):
@@ -276,6 +443,9 @@ class Runner:
     def done(self):
         self.last = self.snap()
         self._done()
+
+    def chk(self):
+        return Chk(self.anomalies, self.registry)
 
     def snap(self):
         return self.d.enc_map(self.d.FST.get_options())
@@ -318,7 +488,7 @@ class Runner:
         prev = self.turn()
         try:
             if k == 'get':
-                v = F.get_option(d.names[st[1]], d.dec_kvs(st[2]))
+                v = F.get_option(d.names[st[1]], self.dec(st[2]))
                 self.trace.append(['val', d.enc(v), self.snap()])   # a missing option comes back as None as well
                 if self.snap() != prev:
                     self.anomalies.append(['call|option-leaked', 'get_option', st[2]])
@@ -326,7 +496,7 @@ class Runner:
                 self.trace.append(['raise', self.snap()])
                 raise ProgRaise()
             elif k == 'set':
-                kw = d.dec_kvs(st[1])
+                kw = self.dec(st[1])
                 try:
                     old = F.set_options(**kw)
                 except Exception as e:
@@ -344,13 +514,15 @@ class Runner:
             else:
                 raise RuntimeError(f'unknown statement {k}')
         finally:
+            self.check_objects(k, st[1] if k in ('set', 'call') else st[2] if k == 'get' else [])
             self.done()
 
     def call(self, st):
         d = self.d
         F = d.FST
-        opts = d.dec_kvs(st[1])
+        opts = self.dec(st[1])
         eid = st[2]
+        defaults_before = self.snap()
         pre = None
         try:
             d.fo.check_options(opts)                 # what every edit entry point does first (all=True)
@@ -359,25 +531,33 @@ class Runner:
         names = list(F.get_options())
         view = [F.get_option(n, opts) for n in names]
         effs = [getattr(F, fn)(opts) for fn in c20_domain.EFF_FUNCS]
+        view_codes, eff_codes = [d.enc(v) for v in view], [d.enc(v) for v in effs]     # by value, BEFORE the edit runs
+        view_copy = copy_opts(dict(zip(names, view)))
         before = self.state['tree'].src
-        res = run_edit(eid, dict(opts), self.state)
+        res = run_edit(eid, dict(opts), self.state, self.chk())
         self.edits.append([eid, res])
         if self.registry and registry_size():
             self.anomalies.append(['registry|not-empty-after-call', EDIT_NAMES[eid], st[1]])
+            registry_clear()        # so that one leak is not reported again by every later step
+        if eid < N_FRESH:
+            key = (eid, json.dumps(st[1]), json.dumps(defaults_before))
+            first = self.same.setdefault(key, res)
+            if first != res:
+                self.anomalies.append(['call|same-call-different-result', EDIT_NAMES[eid], st[1], first[:100], res[:100]])
         if pre is not None:
-            if not res.startswith('EXC ' + type(pre).__name__):
+            if ('EXC ' + type(pre).__name__) not in res:      # multi-call edits report the option-taking call after \0
                 self.anomalies.append(['call|invalid-option-not-rejected-by-edit', EDIT_NAMES[eid], st[1], res[:80]])
             if self.state['tree'].src != before:
                 self.anomalies.append(['call|tree-changed-by-rejected-edit', EDIT_NAMES[eid], st[1]])
             self.trace.append(self.err_obs(pre))
             raise ProgRaise()
         if eid < N_FRESH and c20_domain.MARKER not in opts:     # with the marker the options were not validated
-            self.views.append((eid, dict(zip(names, view)), res))
-        self.trace.append(['view', [d.enc(v) for v in view], [d.enc(v) for v in effs], self.snap()])
+            self.views.append((eid, view_copy, res))
+        self.trace.append(['view', view_codes, eff_codes, self.snap()])
 
     def block(self, st):
         d = self.d
-        kw = d.dec_kvs(st[1])
+        kw = self.dec(st[1])
         prev = self.turn()
         entered = False
         try:
@@ -404,6 +584,7 @@ class Runner:
 
     def exit_obs(self, st, prev, how):
         now = self.snap()
+        self.check_objects('block', st[1])
         self.trace.append(['exit', now])
         pd, nd = dict(map(tuple, prev)), dict(map(tuple, now))
         bad = [n for n, _ in st[1] if pd.get(n) != nd.get(n)]
